@@ -8,6 +8,10 @@ from checks import alloc_common as ac
 PID = "C05"
 
 
+def hc_nz(m, k):
+    return m["counters"].get(k, [0, 0])[1]
+
+
 def build(d, san=False):
     return {"small": ac.build_variant(d, "sc_small", "harness/s_ckpt.c", small=(6, 3), san=san),
             "prod": ac.build_variant(d, "sc_prod", "harness/s_ckpt.c", san=san)}
@@ -33,6 +37,22 @@ def plan(tier, b):
     return jobs
 
 
+def end_to_end(tier, d):
+    """The parts of the property that live outside the allocator: the LP's random-number stream is replayed after a rollback and
+    silently re-executed events emit nothing - oracle R of the whole-runtime harness on RNG-driven models."""
+    from checks import hrun_common as hc
+    from lib import models
+    b1 = hc.build(os.path.join(d, "hrun"))
+    sc = []
+    for g in ((2, 4, 5) if tier == "quick" else range(1, 8)):
+        m = models.text(3, [1, 2, 7], [2, 1, 7], P=5, K=6, G=g, H=5, M=1)
+        sc.append(hc.scen(f"rng{g}_ck3", m, T=2, ck=3, p=1, j=2, deadline=600))
+        if tier != "quick":
+            sc.append(hc.scen(f"rng{g}_ck2T3", m, T=3, ck=2, p=1, j=2, deadline=900))
+            sc.append(hc.scen(f"rng{g}_p2", m, T=2, ck=3, p=2, j=8, deadline=1500))
+    return vc.rsched_scenarios(PID, "h_run", b1, sc, d, workers=4)
+
+
 def run(tier, seed):
     t0 = time.time()
     d = vc.fresh_dir(PID)
@@ -40,6 +60,10 @@ def run(tier, seed):
     dl = {"SX_DEADLINE": "200" if tier == "quick" else "2400"}
     reps = vc.run_parallel([(lambda x=x, a=a: vc.run_seqx(x, a, timeout=3600, env_extra=dl)) for x, a in plan(tier, b)])
     tot, viol = vc.seqx_collect(PID, "ckpt", reps)
+    ereps, em, eviol = end_to_end(tier, d)
+    viol += eviol
+    if not eviol and (hc_nz(em, "silent_executions") == 0 or hc_nz(em, "rollbacks") == 0):
+        raise vc.EngineError("vacuous: no rollback with coast forward in the end-to-end part")
     if not viol and tot["distinct_nontrivial"] < 1000:
         raise vc.EngineError("vacuous: hardly any rollback between checkpoints / after arena growth")
     n = vc.triage(PID, viol)
@@ -50,6 +74,8 @@ def run(tier, seed):
     cov["traces_validated_against_impl"] = tot["evaluations"]
     cov["runs"] = [{"args": r["args"], "events": r.get("events"), "arena_bytes": r.get("arena_bytes"), "scenarios": r["evaluations"],
                     "exhaustive": r.get("exhaustive")} for r in reps][:10]
+    cov["end_to_end"] = {"executions": em["executions"], "with_coast_forward": hc_nz(em, "silent_executions"),
+                         "scenarios": [r["id"] for r in ereps]}
     cov["rule"] = ("every history of n allocator events (malloc of 1 block / 2 blocks / half / whole arena, free, realloc, write) x "
                    "checkpoint interval 1..c (forced checkpoint after the init event, as lp/process.c) x rollback target q (at, between "
                    "and right after checkpoints) x second rollback target q2; each scenario = first run, real restore, coast forward, "
